@@ -692,6 +692,9 @@ impl LpgStore {
 
             // Mark the version chain as deleted at this epoch
             chain.mark_deleted(epoch);
+            // inside the critical section of nodes (the scheduler stops here only on request)
+            #[cfg(grafeo_verif)]
+            grafeo_common::verif::yield_point("held:lpg.delete_node.nodes");
 
             // Remove from label index using node_labels map
             let mut index = self.label_index.write();
@@ -866,11 +869,17 @@ impl LpgStore {
 
         // Update property index before setting the property (needs to read old value)
         self.update_property_index_on_set(id, &prop_key, &value);
+        #[cfg(grafeo_verif)]
+        grafeo_common::verif::yield_point("lpg.set_node_property.after_index");
 
         self.node_properties.set(id, prop_key, value);
+        #[cfg(grafeo_verif)]
+        grafeo_common::verif::yield_point("lpg.set_node_property.after_set");
 
         // Update props_count in record
         let count = self.node_properties.get_all(id).len() as u16;
+        #[cfg(grafeo_verif)]
+        grafeo_common::verif::yield_point("lpg.set_node_property.after_count");
         if let Some(chain) = self.nodes.write().get_mut(&id)
             && let Some(record) = chain.latest_mut()
         {
@@ -1433,6 +1442,9 @@ impl LpgStore {
             index.resize(label_id as usize + 1, FxHashMap::default());
         }
         index[label_id as usize].insert(node_id, ());
+        // inside the critical section of label_index (the scheduler stops here only on request)
+        #[cfg(grafeo_verif)]
+        grafeo_common::verif::yield_point("held:lpg.add_label.label_index");
 
         // Update label count in node record
         if let Some(chain) = self.nodes.write().get_mut(&node_id)
@@ -1547,6 +1559,8 @@ impl LpgStore {
         if (label_id as usize) < index.len() {
             index[label_id as usize].remove(&node_id);
         }
+        #[cfg(grafeo_verif)]
+        grafeo_common::verif::yield_point("held:lpg.remove_label.label_index");
 
         // Update label count in node record
         if let Some(chain) = self.nodes.write().get_mut(&node_id)
